@@ -60,13 +60,13 @@ namespace
 
   struct Log
   {
-    struct Hdr { volatile long cur; volatile size_t used; volatile long count; };
+    struct Hdr { volatile long cur; volatile size_t used; volatile long count; volatile int phase; };
     char* base = nullptr;
     size_t cap = 0;
     pid_t owner = 0;
     size_t rpos = sizeof(Hdr);   // read position (worker)
     bool child = false;          // this process is a runner child
-    bool have_crash = false; long crash_idx = -1; int crash_sig = 0;
+    bool have_crash = false; long crash_idx = -1; int crash_sig = 0; int crash_phase = 0;
     std::string crash_stderr;
     std::string errfile;
     int errfd = -1;
@@ -101,6 +101,7 @@ namespace
     void child_begin_case(long idx)
     {
       hdr()->cur = idx;
+      hdr()->phase = 0; phase_ptr() = &hdr()->phase; phase_base() = 0;
       if(errfd >= 0) { if(ftruncate(errfd, 0) != 0) {} lseek(errfd, 0, SEEK_SET); }
       alarm(30);
     }
@@ -180,8 +181,11 @@ namespace
           std::istringstream es(g_log.crash_stderr); std::string ln; int n = 0;
           while(std::getline(es, ln) && n < 6) { if(ln.find("ERROR") != std::string::npos || ln.find("runtime error") != std::string::npos || ln.find("Message") != std::string::npos || ln.find("Function") != std::string::npos || ln.find("FATAL") != std::string::npos || ln.find("    #0") != std::string::npos || ln.find("    #1") != std::string::npos) { cause += printable(ln, 260) + " / "; ++n; } }
         }
-        std::string k = rekey ? rekey(kind, std::string(), g_log.crash_stderr) : std::string();
-        c.fail(k.empty() ? key + " :: " + kind : k, std::string(k.empty() ? "" : "[" + kind + "] ") + std::string("parser died with ") + (sig > 0 ? signame(sig) : "exit code") + " (" + itos_(sig) + ") on: " + what() + " | stderr: " + cause);
+        const char* phn[] = {"before parsing", "read_root_markup", "Scanner::scan (parsers)", "MeshNodeLinker::execute", "MeshFileWriter::write", "canon", "destructors"};
+        const int ph = g_log.crash_phase % 10;
+        const std::string where = std::string(g_log.crash_phase >= 10 ? "re-parse of the written text, " : "first parse, ") + (ph >= 0 && ph < 7 ? phn[ph] : "?");
+        std::string k = rekey ? rekey(kind, "phase=" + itos_(g_log.crash_phase), g_log.crash_stderr) : std::string();
+        c.fail(k.empty() ? key + " :: " + kind : k, std::string(k.empty() ? "" : "[" + kind + "] ") + std::string("parser died with ") + (sig > 0 ? signame(sig) : "exit code") + " (" + itos_(sig) + ") in [" + where + "] on: " + what() + " | stderr: " + cause);
         return;
       }
       // no verdict yet: fork a runner child that starts with this case
@@ -201,8 +205,8 @@ namespace
       c.count("runner_children");
       int st = 0;
       while(waitpid(p, &st, 0) < 0) {}
-      if(WIFSIGNALED(st)) { g_log.have_crash = true; g_log.crash_idx = g_log.hdr()->cur; g_log.crash_sig = WTERMSIG(st); g_log.crash_stderr = g_log.read_stderr(); }
-      else if(WIFEXITED(st) && WEXITSTATUS(st) != 0) { g_log.have_crash = true; g_log.crash_idx = g_log.hdr()->cur; g_log.crash_sig = -WEXITSTATUS(st); g_log.crash_stderr = g_log.read_stderr(); }
+      if(WIFSIGNALED(st)) { g_log.have_crash = true; g_log.crash_idx = g_log.hdr()->cur; g_log.crash_sig = WTERMSIG(st); g_log.crash_phase = g_log.hdr()->phase; g_log.crash_stderr = g_log.read_stderr(); }
+      else if(WIFEXITED(st) && WEXITSTATUS(st) != 0) { g_log.have_crash = true; g_log.crash_idx = g_log.hdr()->cur; g_log.crash_sig = -WEXITSTATUS(st); g_log.crash_phase = g_log.hdr()->phase; g_log.crash_stderr = g_log.read_stderr(); }
     }
     c.fail("machinery :: no verdict", "runner child produced no verdict for this case");
   }
@@ -360,13 +364,17 @@ namespace
       const Diag d = diagnose(text);
       if(kind == "crash")
       {
-        if(d.f3 && err.find("AttributeSet") != std::string::npos && err.find("ASSERTION FAILED") != std::string::npos) return "known-F3 attribute dim outside int range";
-        // the defect shows inside MeshNodeLinker::execute -> MeshPart::deduct_topology (IndexSetFiller or the index calculator fed by it)
-        if((d.f4_range || d.f4_closure) && err.find("MeshNodeLinker") != std::string::npos &&
-          (err.find("IndexSetFiller") != std::string::npos || err.find("IndexTree") != std::string::npos || err.find("IndexCalculator") != std::string::npos))
-          return "known-F4 unchecked mapping target index";
-        if(d.f5 && err.find("Bezier") != std::string::npos && (err.find("write") != std::string::npos)) return "known-F5 bezier points/params block count";
-        if(d.f8 && err.find("is shared by cells") != std::string::npos) return "known-F8 non-manifold SurfaceMesh triangles";
+        // msg = "phase=N": the stage of c11::parse_typed in which the child died (harness-side marker, independent of the
+        // sanitizer's wording and of UBSAN_OPTIONS=print_stacktrace); FEAT's own assertion texts are used where they exist.
+        const int phase = (msg.compare(0, 6, "phase=") == 0) ? std::atoi(msg.c_str() + 6) : -1;
+        // F3: XASSERT of the AttributeSet constructor while the parsers run
+        if(d.f3 && phase == PH_SCAN && err.find("AttributeSet") != std::string::npos) return "known-F3 attribute dim outside int range";
+        // F4: died inside MeshNodeLinker::execute (deduct_topology -> IndexSetFiller / index calculator) of the first parse
+        if((d.f4_range || d.f4_closure) && phase == PH_LINK) return "known-F4 unchecked mapping target index";
+        // F5: the writer died on the chart the parser should not have accepted
+        if(d.f5 && phase == PH_WRITE) return "known-F5 bezier points/params block count";
+        // F8: XABORTM of FacetNeighbors::compute reached from SurfaceMeshChartParser::close
+        if(d.f8 && phase == PH_SCAN && err.find("is shared by cells") != std::string::npos) return "known-F8 non-manifold SurfaceMesh triangles";
         return std::string();
       }
       if(kind == "accepted")
@@ -405,7 +413,9 @@ namespace
             r.fails.emplace_back("changed", "input must be equivalent to the seed (" + what() + ") but is parsed into something else: " + printable(p.written, 600));
         }
         // whatever was accepted must be a fixed point of write o parse
+        phase_base() = 10;
         Parsed p2 = parse_mesh(p.written, sm.default_type, true, false);
+        phase_base() = 0;
         r.parses = 2;
         if(p2.kind != K_OK)
           r.fails.emplace_back("rewrite-rejected", std::string("the writer's output for an accepted input is rejected by the reader: ") + kind_name(p2.kind) + " " + p2.what + " | written: " + printable(p.written, 900));
